@@ -182,7 +182,7 @@ pub fn sched_run(cfg: &CtrCfg, seqs: &[Vec<u8>], dir: &str, schedule: &[(u64, St
         c.count();
         c.merge(delete);
     });
-    let to = Duration::from_secs(20);
+    let to = Duration::from_secs(8);
     let mut fail: Option<String> = None;
     let steps: Vec<&(u64, String)> = schedule.iter().filter(|s| ["c", "t", "k", "a", "e"].contains(&s.1.as_str())).collect();
     let mut i = 0usize;
@@ -243,7 +243,7 @@ pub fn sched_run(cfg: &CtrCfg, seqs: &[Vec<u8>], dir: &str, schedule: &[(u64, St
             }
             rec.grant(tid);
             if rec.wait_quiescent(threads, to).is_none() {
-                fail = Some("granted worker did not come back".into());
+                fail = Some("VANISHED: granted worker neither reached a schedule point nor exited".into());
                 break 'chunks;
             }
         }
@@ -252,6 +252,13 @@ pub fn sched_run(cfg: &CtrCfg, seqs: &[Vec<u8>], dir: &str, schedule: &[(u64, St
     let res = handle.join();
     Recorder::uninstall();
     if let Some(f) = fail {
+        if f.starts_with("VANISHED") {
+            let log = rec.take_log();
+            let mut evs = vec![reset_event(cfg, seqs, &log, "sched")];
+            evs.extend(log.iter().map(ev_json));
+            evs.push(json!({"ev":"crash","kind":"vanished","what":f}));
+            return Ok(evs);
+        }
         return Err(f);
     }
     let log = rec.take_log();
@@ -283,14 +290,22 @@ pub fn replay(schedfile: &str, w: usize, limit: u64, dir: &str, seed: u64, strid
         let schedule: Vec<(u64, String)> = v.as_array().unwrap().iter().map(|s| (s[0].as_u64().unwrap(), s[1].as_str().unwrap().to_string())).collect();
         match sched_run(&cfg, &seqs, dir, &schedule) {
             Ok(evs) => {
+                let vanished = evs.last().map(|e| e["kind"] == "vanished").unwrap_or(false);
                 for e in evs {
                     println!("{}", e);
                 }
                 done += 1;
+                if vanished {
+                    // one such run is enough to reject the trace; do not wait through many more time-outs
+                    break;
+                }
             }
             Err(why) => {
                 unrep += 1;
                 eprintln!("unreplayable schedule {}: {}", i, why);
+                if unrep >= 25 {
+                    break;
+                }
             }
         }
     }
